@@ -20,14 +20,23 @@ class C18(object):
             "for random group lists and conditioning sets (all of them for n <= 3 in the thorough tier), "
             "ExtropyPartition (atoms sum to the joint extropy, queries = alternating sums of conditional extropies), "
             "ComplexityProfile (every scale; scale 1 = H; sum = sum of marginal entropies), ConnectedInformations "
-            "(non-negative, sum from order 2 = total correlation), both entropy triangles (non-negative, sum to one). "
-            "Non-trivial = n >= 3 and at least 3 positive outcomes")
+            "(non-negative, sum from order 2 = total correlation), both entropy triangles (non-negative, sum to one; both "
+            "points against their definitions, H_U = sum of log2 of the alphabet sizes; single distribution or a list). "
+            "Distributions also come with a declared sample space (SampleSpace / list of members / Cartesian product of "
+            "larger alphabets) or after pruned_samplespace / expanded_samplespace, and from a weakly dependent family "
+            "(product of marginals mixed with a small perturbation, optionally one variable through a Z-channel: atoms of "
+            "1e-5..1e-2). A partition object may be looked at (str, repr with and without ditParams['repr.print'], "
+            "to_string(digits=0..6), get_atoms) before or after it is read; every atom and query is then evaluated "
+            "again on the same object. Non-trivial = n >= 3 and at least 3 positive outcomes")
     tolerances = {'closed forms': 'atol 1e-9', 'connected informations (maxent optimiser inside)': '2e-3',
-                  'symbolic atoms': 'exact rational coefficients'}
+                  'symbolic atoms': 'exact rational coefficients',
+                  'EntropyTriangle first two coordinates': 'atol 1e-9 + (h + m (H_P + 2 log2 e)) / H_U, h and m the entropy and '
+                                                           'the mass of the cells of the product of the marginals within the null '
+                                                           'tolerance 1e-8 (0 for almost every case)'}
     exhaustive = {'thorough': True}
 
     def gen(self, rng, tier):
-        n_cases = 90 if tier == 'quick' else 8000
+        n_cases = 120 if tier == 'quick' else 8000
         if tier == 'thorough':
             for n in (2, 3):
                 base = gen.rand_dist_case(rng, nmin=n, nmax=n, amax=2, bases=['linear'], allow_space=False, max_support=8,
@@ -51,6 +60,9 @@ class C18(object):
             if kind == 'connected' and n == 4 and rng.random() < 0.5:
                 kind = 'profile'
             c['kind'] = kind
+            if kind in ('atoms', 'query', 'extropy', 'profile', 'triangle') and rng.random() < 0.25:
+                self.weak_family(rng, c)
+                n = c['n']
             if kind == 'connected' and rng.random() < 0.35:
                 # three independent bits with a rare joint outcome (between 1e-6 and 1e-4): every connected information
                 # from order 2 on is 0, and the rare outcome must survive the optimiser's cut-off at 1e-6
@@ -69,7 +81,99 @@ class C18(object):
             ng = rng.randint(1, 3)
             c['groups'] = [sorted(rng.sample(range(n), rng.randint(1, min(2, n)))) for _ in range(ng)]
             c['crvs'] = sorted(rng.sample(range(n), rng.randint(0, n - 1)))
+            if not c.get('rare') and rng.random() < 0.45:
+                self.add_space(rng, c)
+            if kind in ('atoms', 'query', 'extropy') and rng.random() < 0.6:
+                # the object is looked at (rendered / listed) between its construction and the reads, or after them
+                c['render'] = [rng.choice(self.LOOKS) for _ in range(rng.randint(1, 3))]
+                c['render_first'] = rng.random() < 0.5
+            if kind == 'triangle':
+                c['aslist'] = rng.random() < 0.4
             yield c
+
+    LOOKS = ['str', 'str', 'repr', 'repr-print', 'to_string:0', 'to_string:1', 'to_string:2', 'to_string:3', 'to_string:4',
+             'to_string:6', 'get_atoms', 'get_atoms:raw']
+
+    @staticmethod
+    def weak_family(rng, c):
+        """Weakly dependent variables: a product of strictly positive marginals mixed (weight eps) with a uniform
+        distribution on a few outcomes; optionally the last variable is the first one sent through a Z-channel (which
+        lists impossible outcomes with probability zero). Dependence atoms come out at 1e-5..1e-2, all exact rationals."""
+        n = c['n']
+        zchan = n >= 3 and rng.random() < 0.4
+        m = n - 1 if zchan else n
+        alphs = [[0, 1] if (n == 4 or rng.random() < 0.7) else [0, 1, 2] for _ in range(m)]
+        margs = []
+        for a in alphs:
+            w = [rng.choice([1, 2, 3, 5]) for _ in a]
+            margs.append([Fraction(x, sum(w)) for x in w])
+        outs = [list(o) for o in itertools.product(*alphs)]
+        eps = Fraction(1, rng.choice([20, 50, 200, 1000]))
+        bump = rng.sample(range(len(outs)), rng.randint(1, min(4, len(outs) - 1)))
+        pmf = []
+        for k, o in enumerate(outs):
+            p_ = Fraction(1)
+            for i, x in enumerate(o):
+                p_ *= margs[i][alphs[i].index(x)]
+            pmf.append((1 - eps) * p_ + (eps / len(bump) if k in bump else 0))
+        if zchan:
+            flip = Fraction(rng.choice([3, 5, 7]), 10)
+            outs2, pmf2 = [], []
+            for o, p_ in zip(outs, pmf):
+                for z in (0, 1):
+                    if o[0] == alphs[0][0]:
+                        pz = Fraction(1 - z)
+                    else:
+                        pz = flip if z == 1 else 1 - flip
+                    outs2.append(o + [z])
+                    pmf2.append(p_ * pz)
+            outs, pmf, alphs = outs2, pmf2, alphs + [[0, 1]]
+        c.update({'outs': outs, 'pmf': [str(p_) for p_ in pmf], 'alphabets': alphs, 'space': None, 'spacekind': 'none',
+                  'style': 'weak-zchannel' if zchan else 'weak'})
+        return c
+
+    @staticmethod
+    def add_space(rng, c):
+        """The same table carried by another sample space: declared explicitly (members = the listed outcomes plus some
+        others of the product; a Cartesian product of possibly larger alphabets) or obtained from dit's own
+        pruned_samplespace / expanded_samplespace after construction."""
+        how = rng.choice(['ss', 'list', 'cart', 'prune', 'prune', 'expand'])
+        alphs = [sorted(set(o[i] for o in c['outs'])) for i in range(c['n'])]
+        if how in ('ss', 'list'):
+            full = [list(o) for o in itertools.product(*alphs)]
+            extra = [o for o in full if o not in c['outs']]
+            rng.shuffle(extra)
+            members = [list(o) for o in c['outs']] + extra[:rng.choice([0, 0, 1, 2, len(extra)])]
+            rng.shuffle(members)
+            c['space'] = [how, members]
+        elif how == 'cart':
+            c['space'] = ['cart', [sorted(set(a) | set(rng.sample(range(6), rng.randint(0, 1)))) for a in alphs]]
+        else:
+            c['post'] = how
+        c['spacekind'] = how
+        return c
+
+    @staticmethod
+    def spec_alphabets(case):
+        """The alphabet of each variable as the case specifies it (ranks): the symbols of the declared sample space, or
+        of the listed outcomes when none is declared; of the outcomes of positive probability after pruning; the union
+        over the variables after expanded_samplespace (its default)."""
+        n = case['n']
+        sp = case.get('space')
+        if sp is None:
+            members = case['outs']
+            alphs = [set(o[i] for o in members) for i in range(n)]
+        elif sp[0] == 'cart':
+            alphs = [set(a) for a in sp[1]]
+        else:
+            alphs = [set(o[i] for o in sp[1]) for i in range(n)]
+        if case.get('post') == 'prune':
+            pos = [o for o, p in zip(case['outs'], case['pmf']) if Fraction(p) > 0]
+            alphs = [set(o[i] for o in pos) for i in range(n)]
+        elif case.get('post') == 'expand':
+            u = set().union(*alphs)
+            alphs = [set(u) for _ in range(n)]
+        return alphs
 
     def shrink(self, case):
         return []
@@ -78,7 +182,12 @@ class C18(object):
     def run(self, case, drv):
         r = core.Result()
         r.site = 'dit.profiles.' + case['kind']
-        r.features = ['kind=%s' % case['kind'], 'n=%d' % case['n'], 'names=%s' % bool(case.get('names'))]
+        r.features = ['kind=%s' % case['kind'], 'n=%d' % case['n'], 'names=%s' % bool(case.get('names')),
+                      'space=%s' % (case.get('spacekind') or 'none'), 'pstyle=%s' % case.get('style')]
+        if case['kind'] in ('atoms', 'query', 'extropy'):
+            r.features.append('looked-at=%s' % (('before-reads' if case.get('render_first') else 'after-reads')
+                                                if case.get('render') else 'never'))
+            r.features += ['look=%s' % s for s in sorted(set(case.get('render') or []))]
         try:
             getattr(self, 'run_' + case['kind'])(case, drv, r)
         except core.DriverError:
@@ -91,6 +200,11 @@ class C18(object):
 
     def setup(self, case):
         d = gen.build(case)
+        if case.get('post'):
+            dit = import_dit()
+            d = dit.pruned_samplespace(d) if case['post'] == 'prune' else dit.expanded_samplespace(d)
+            if case.get('names'):
+                d.set_rv_names(case['names'])
         klass = case['klass']
         rows = [(gen.from_py(o, klass), float(v)) for o, v in zip(d.outcomes, d.pmf)]
         ftab = [[o, f2bits(v)] for o, v in rows]
@@ -123,6 +237,98 @@ class C18(object):
     def var(self, case, i):
         return case['names'][i] if case.get('names') else i
 
+    # ------------------------------------------------------------------ looking at a partition object
+    @staticmethod
+    def look(part, steps):
+        """Apply the read-only presentation calls named in `steps` to a partition object."""
+        dit = import_dit()
+        for step in steps:
+            if step == 'str':
+                out = str(part)
+            elif step == 'repr':
+                out = repr(part)
+            elif step == 'repr-print':
+                old = dit.ditParams['repr.print']
+                dit.ditParams['repr.print'] = True
+                try:
+                    out = repr(part)
+                finally:
+                    dit.ditParams['repr.print'] = old
+            elif step.startswith('to_string:'):
+                out = part.to_string(digits=int(step.split(':')[1]))
+            elif step == 'get_atoms':
+                out = part.get_atoms()
+            elif step == 'get_atoms:raw':
+                out = part.get_atoms(string=False)
+            else:
+                raise ValueError(step)
+            if out is None:
+                raise ValueError('%s returned None' % step)
+
+    @staticmethod
+    def look_text(steps):
+        names = {'str': 'str(p)', 'repr': 'repr(p)', 'repr-print': "repr(p) with ditParams['repr.print']",
+                 'get_atoms': 'p.get_atoms()', 'get_atoms:raw': 'p.get_atoms(string=False)'}
+        return ', '.join(names.get(s, 'p.to_string(digits=%s)' % s.split(':')[-1]) for s in steps)
+
+    def partition_holds(self, part, F, case, what):
+        """The statement evaluated on a partition object as it is now: one atom per non-empty set of variables,
+        conditioned on all the others; the atoms sum to F(all); each atom is the conditional co-information of its
+        variables given the rest (F = entropy or extropy of a set of variables); the case's query and its regroupings
+        are the sums the definition gives. Returns None or the first clause that fails."""
+        n = case['n']
+        inv = {self.var(case, i): i for i in range(n)}
+        atoms = part.atoms
+        seen = []
+        for (a_rvs, a_crvs), val in atoms.items():
+            S = sorted(inv[v[0]] for v in a_rvs)
+            rest = [i for i in range(n) if i not in S]
+            seen.append(tuple(S))
+            if sorted(inv[v] for v in a_crvs) != rest:
+                return '%s atom %s is conditioned on %s' % (what, S, a_crvs)
+            ref = self.coinfo(F, [[i] for i in S], rest)
+            if not abs(val - ref) <= 1e-9:
+                return '%s atom %s|%s = %r, the conditional co-information is %r' % (what, S, rest, val, ref)
+        want = sorted(s for k in range(1, n + 1) for s in itertools.combinations(range(n), k))
+        if sorted(seen) != want:
+            return '%s atoms are %s, not one per non-empty set of variables' % (what, sorted(seen))
+        total = sum(atoms.values())
+        if not abs(total - F(range(n))) <= 1e-9:
+            return '%s atoms sum to %r, the joint value is %r' % (what, total, F(range(n)))
+        groups, crvs = case['groups'], case['crvs']
+        union = sorted(set(i for g in groups for i in g))
+        for g2 in [groups, [union], [[i] for i in union]]:
+            item = (tuple(tuple(self.var(case, i) for i in g) for g in g2), tuple(self.var(case, i) for i in crvs))
+            val = part[item]
+            ref = self.coinfo(F, g2, crvs)
+            if not abs(val - ref) <= 1e-9:
+                return '%s partition[%s | %s] = %r, the definition gives %r' % (what, g2, crvs, val, ref)
+        return None
+
+    def looked_at(self, part, F, case, r, what, first):
+        """`first`: the presentation calls of the case, made right after construction (the reads that follow are then
+        reads of an object that has been looked at). Otherwise, made after the reads, and everything is read again."""
+        steps = case.get('render')
+        if not steps or bool(case.get('render_first')) != first:
+            return
+        if first:
+            self.look(part, steps)
+            return
+        if r.oracle_fail:
+            return
+        msg = self.partition_holds(part, F, case, what)
+        if msg:                      # already wrong before anything was shown
+            r.oracle_fail = msg
+            return
+        self.look(part, steps)
+        msg = self.partition_holds(part, F, case, what)
+        if msg:
+            r.oracle_fail = 'after %s on the same object p: %s' % (self.look_text(steps), msg)
+
+    def tag_looked(self, case, r):
+        if r.oracle_fail and case.get('render') and case.get('render_first') and not r.oracle_fail.startswith('after '):
+            r.oracle_fail = 'after %s on the freshly built object p: %s' % (self.look_text(case['render']), r.oracle_fail)
+
     def run_atoms(self, case, drv, r):
         dit = import_dit()
         from dit.profiles import ShannonPartition
@@ -131,10 +337,12 @@ class C18(object):
         n = case['n']
         r.nontrivial = n >= 3 and len(rows) >= 3
         sp = ShannonPartition(d)
+        self.looked_at(sp, H, case, r, 'Shannon', True)
         atoms = sp.atoms
         total = sum(atoms.values())
         if abs(total - H(range(n))) > 1e-9:
             r.oracle_fail = 'atoms sum to %r, joint entropy is %r' % (total, H(range(n)))
+            self.tag_looked(case, r)
             return
         inv = {self.var(case, i): i for i in range(n)}
         for (a_rvs, a_crvs), val in atoms.items():
@@ -143,6 +351,7 @@ class C18(object):
             ref = self.coinfo(H, [[i] for i in S], rest)
             if abs(val - ref) > 1e-9:
                 r.oracle_fail = 'atom %s = %r, conditional co-information gives %r' % (S, val, ref)
+                self.tag_looked(case, r)
                 return
             if sorted(inv[v] for v in a_crvs) != rest:
                 r.oracle_fail = 'atom %s is conditioned on %s' % (S, a_crvs)
@@ -150,6 +359,10 @@ class C18(object):
             mv = bits2f(drv.call('combf', ['atom', n, [S], [], ftab]))
             if abs(val - mv) > 1e-9:
                 r.mismatch = 'atom %s: impl %r model %r' % (S, val, mv)
+        if not r.oracle_fail and (case.get('render_first') or not case.get('render')):
+            r.oracle_fail = self.partition_holds(sp, H, case, 'Shannon')
+            self.tag_looked(case, r)
+        self.looked_at(sp, H, case, r, 'Shannon', False)
         # symbolic leg: run the partition construction under the entropy oracle
         real = ip.ShannonPartition._measure
         with symtrace.traced_entropy(dit, d):
@@ -176,6 +389,7 @@ class C18(object):
         groups, crvs = case['groups'], case['crvs']
         r.nontrivial = n >= 3 and len(groups) >= 2
         sp = ShannonPartition(d)
+        self.looked_at(sp, H, case, r, 'Shannon', True)
         item = (tuple(tuple(self.var(case, i) for i in g) for g in groups), tuple(self.var(case, i) for i in crvs))
         val = sp[item]
         ref = self.coinfo(H, groups, crvs)
@@ -196,6 +410,8 @@ class C18(object):
             if abs(v2 - ref2) > 1e-9:
                 r.oracle_fail = ('after the query %s | %s on the same partition object, partition[%s | %s] = %r, the '
                                  'conditional co-information is %r' % (groups, crvs, g2, crvs, v2, ref2))
+        self.tag_looked(case, r)
+        self.looked_at(sp, H, case, r, 'Shannon', False)
         # the model's query combination equals its co-information combination (exact)
         a = drv.call('comb', ['query', n, groups, crvs])[0]
         b = drv.call('comb', ['coinformation', 0, groups, crvs])[0]
@@ -208,9 +424,11 @@ class C18(object):
         n = case['n']
         r.nontrivial = n >= 3
         xp = ExtropyPartition(d)
+        self.looked_at(xp, X, case, r, 'Extropy', True)
         total = sum(xp.atoms.values())
         if abs(total - X(range(n))) > 1e-9:
             r.oracle_fail = 'extropy atoms sum to %r, joint extropy is %r' % (total, X(range(n)))
+            self.tag_looked(case, r)
             return
         groups, crvs = case['groups'], case['crvs']
         item = (tuple(tuple(self.var(case, i) for i in g) for g in groups), tuple(self.var(case, i) for i in crvs))
@@ -218,6 +436,11 @@ class C18(object):
         ref = self.coinfo(X, groups, crvs)
         if abs(val - ref) > 1e-9:
             r.oracle_fail = 'extropy partition[%s | %s] = %r, alternating sum of conditional extropies %r' % (groups, crvs, val, ref)
+        if not r.oracle_fail:
+            # every atom: the alternating sum of conditional extropies of its variables given the rest
+            r.oracle_fail = self.partition_holds(xp, X, case, 'Extropy')
+        self.tag_looked(case, r)
+        self.looked_at(xp, X, case, r, 'Extropy', False)
 
     def run_profile(self, case, drv, r):
         from dit.profiles import ComplexityProfile
@@ -290,6 +513,72 @@ class C18(object):
         ref = (R / (R + B + T), T / (R + B + T), B / (R + B + T))
         if any(abs(a - b) > 1e-9 for a, b in zip(pt, ref)):
             r.oracle_fail = 'EntropyTriangle2 point %s, definition %s' % (pt, ref)
+            return
+        # first triangle against its definition: H_U is the entropy of the uniform distribution over the product of the
+        # variables' alphabets (taken from the case's specification), H_P the sum of the marginal entropies.  The same
+        # table is also presented on its pruned sample space (alphabets = symbols of the outcomes of positive
+        # probability) and on its expanded one (every alphabet = the union of the alphabets).
+        import dit as _dit
+        HP = sum(H([i]) for i in range(n))
+        alphs = self.spec_alphabets(case)
+        pos = [o for o, p in rows if p > 0]
+        shown = [('', d, [len(a) for a in alphs]),
+                 (' on its pruned sample space', _dit.pruned_samplespace(d), [len(set(o[i] for o in pos)) for i in range(n)]),
+                 (' on its expanded sample space', _dit.expanded_samplespace(d), [len(set().union(*alphs))] * n)]
+        # dit forms H_P as the entropy of the product of the marginals held as a sparse distribution, which drops cells
+        # within the library's null tolerance (p <= 1e-8, DESIGN 11 "Null tolerance"): the entropy those cells carry is
+        # allowed for in the first two coordinates (it is 0 unless marginal probabilities multiply to <= 1e-8), together
+        # with the effect of the missing mass on the entropy of the table that is left, whichever way it is normalised
+        margs = []
+        for i in range(n):
+            m = {}
+            for o, p in rows:
+                m[o[i]] = m.get(o[i], 0.0) + p
+            margs.append([v for v in m.values() if v > 0])
+        dropped = 0.0
+        dmass = 0.0
+        for cell in itertools.product(*margs):
+            q_ = math.prod(cell)
+            if 0 < q_ <= 2e-8:
+                dropped += -q_ * math.log2(q_)
+                dmass += q_
+        dropped += dmass * (HP + 2 / math.log(2))
 
+        def same1(pt_, ref_, HU_):
+            tol = 1e-9 + dropped / HU_
+            return abs(pt_[0] - ref_[0]) <= tol and abs(pt_[1] - ref_[1]) <= tol and abs(pt_[2] - ref_[2]) <= 1e-9
+        refs1 = []
+        for label, dd, sizes in shown:
+            if dd is not d and case.get('names'):
+                dd.set_rv_names(case['names'])
+            HU = sum(math.log2(k) for k in sizes)
+            ref1 = ((HU - HP) / HU, (HP - R) / HU, R / HU)
+            refs1.append((ref1, HU))
+            pt1 = EntropyTriangle(dd).points[0]
+            if any(v < -1e-9 for v in pt1) or abs(sum(pt1) - 1) > 1e-9:
+                r.oracle_fail = 'EntropyTriangle point %s%s is not a non-negative point summing to one' % (
+                    tuple(map(float, pt1)), label)
+                return
+            if not same1(pt1, ref1, HU):
+                r.oracle_fail = ('EntropyTriangle point %s%s, definition %s (alphabet sizes %s, H_U = %r, sum of marginal '
+                                 'entropies %r, residual entropy %r)' % (tuple(map(float, pt1)), label, ref1, sizes, HU, HP, R))
+                return
+            pt2 = EntropyTriangle2(dd).points[0]
+            if not all(abs(a - b) <= 1e-9 for a, b in zip(pt2, ref)):
+                r.oracle_fail = 'EntropyTriangle2 point %s%s, definition %s' % (tuple(map(float, pt2)), label, ref)
+                return
+        if case.get('aslist'):
+            # several distributions at once: one point each, in order
+            dists = [dd for _, dd, _ in shown]
+            for cls, refs in ((EntropyTriangle, refs1), (EntropyTriangle2, [(ref, None)] * len(dists))):
+                pts = cls(dists).points
+                if len(pts) != len(dists):
+                    r.oracle_fail = '%s of a list of %d distributions has %d points' % (cls.__name__, len(dists), len(pts))
+                    return
+                for k, (pt_, (ref_, HU_)) in enumerate(zip(pts, refs)):
+                    if not (same1(pt_, ref_, HU_) if HU_ else all(abs(a - b) <= 1e-9 for a, b in zip(pt_, ref_))):
+                        r.oracle_fail = '%s of a list: point %d (the table%s) is %s, definition %s' % (
+                            cls.__name__, k, shown[k][0] or ' as given', tuple(map(float, pt_)), ref_)
+                        return
 
 PROP = C18()
